@@ -181,12 +181,18 @@ EmitCfg == PrintT("CASE:" \o ToJson(CaseOf(st)))
 (*                      B.  C31: start or refuse                           *)
 
 Src == {"absent", "flag", "env"}
-Given(x) == x # "absent"
+\* boolean options can also be given with an explicit false value (--insecure=false, INSECURE=false):
+\* present on the command line / in the environment, but not "given" in the sense of the property
+BSrc == Src \cup {"flag0", "env0"}
+Given(x) == x \in {"flag", "env"}
 ClientTools == {"bisquitt-pub", "bisquitt-sub"}
 
 (* cred: --auth (gateway) / --user (clients); empty: the user given is ""  *)
-Runs == {r \in [tool : Tools, cred : Src, pw : Src, dtls : Src, insec : Src, empty : BOOLEAN] :
-            r.empty => (r.tool \in ClientTools /\ Given(r.cred))}
+Runs == {r \in [tool : Tools, cred : BSrc, pw : Src, dtls : BSrc, insec : BSrc, empty : BOOLEAN] :
+            /\ r.empty => (r.tool \in ClientTools /\ Given(r.cred))
+            /\ (r.tool \in ClientTools => r.cred \in Src)          \* --user is not a boolean
+            \* explicit false values: one option at a time
+            /\ Cardinality({k \in {"cred", "dtls", "insec"} : r[k] \in {"flag0", "env0"}}) <= 1}
 
 EffInsec(r) == IF "EnvInsecureIgnored" \in Dev THEN r.insec = "flag" ELSE Given(r.insec)
 
